@@ -7,7 +7,7 @@ ID = "C09"
 LEVEL = "exploration"
 RULE = ("ALL connected multigraphs (<=2 parallel links per pair, canonical under junction relabelling) on 1-2 sources + <=3 "
         "(quick) / <=4 (thorough) junctions with <=5 / <=6 links x EVERY subset of initially closed links x schedules of "
-        "<=1 (quick; <=2 on graphs with <=3 links) / <=2 (thorough, small graphs) time controls toggling a link; graphs whose reservoir and tank are also joined directly; variants with link 0 as head pump / TCV, run + reset + second run (judged) on the same simulator object / a new one (graphs with <= 4 links), and (graphs with <= 4 links; thorough <= 5) under the pressure-dependent demand model. "
+        "<=1 (quick; <=2 on graphs with <=3 links) / <=2 (thorough, small graphs) time controls toggling a link; graphs whose reservoir and tank are also joined directly; variants with link 0 as head pump / TCV, run + reset + second run (judged) on the same simulator object / a new one, and a run paused at time 0 and continued (graphs with <= 4 links), and (graphs with <= 4 links; thorough <= 5) under the pressure-dependent demand model. "
         "oracle: reference reachability over reported statuses: isolated => demand=pressure=head=0 and zero flow on its "
         "links; connected => full requested demand and the run solves; no-tank graphs: every step equals the steady state "
         "of the same closed set. non-trivial: at least one junction isolated at some step and one connected at some step")
@@ -62,7 +62,7 @@ def cases(tier):
                             # the model is simulated, reset and simulated AGAIN on the same WNTRSimulator object / a new one:
                             # the second run is judged (every toggled link ends the first run in another state than it starts the second)
                             for li in range(L):
-                                for mode in ("same-sim", "new-sim"):
+                                for mode in ("same-sim", "new-sim", "paused-at-0"):
                                     c = graph_spec(nf, k, edges, closed, ((li, 3600),), "pipe")
                                     c["rerun"] = mode
                                     c["id"]["rerun"] = mode
@@ -96,11 +96,18 @@ def run_case(s):
     if s.get("rerun"):
         import wntr, warnings
         wn = build(s)
+        if s["rerun"] == "paused-at-0":
+            # a run paused right after time 0 and continued: the toggle at 1 h is the FIRST step of the continued part
+            full = wn.options.time.duration
+            wn.options.time.duration = 0
         sim = wntr.sim.WNTRSimulator(wn)
         with warnings.catch_warnings():
             warnings.simplefilter("ignore")
             first = sim.run_sim()
-        wn.reset_initial_values()
+        if s["rerun"] == "paused-at-0":
+            wn.options.time.duration = full
+        else:
+            wn.reset_initial_values()
         if first.error_code is not None:
             return {"viol": [], "nontrivial": False, "outcome": "first-run-not-converged", "counts": {"not_converged": 1}}
         if s["rerun"] == "same-sim":
